@@ -78,8 +78,11 @@ fn c12_check(c: &ProbeCase, st: &mut Stats) -> CheckResult {
     }
     st.count("probe_runs", sets.len() as u64);
     let nt = match c {
-        ProbeCase::Ops { prog, .. } => {
+        ProbeCase::Ops { prog, hangup_after, .. } => {
             st.label("ops");
+            if hangup_after.is_some() {
+                st.label("ops:listener-hangs-up(frontend builds)");
+            }
             let t = reference.as_ref().unwrap();
             let rich = t["handles"].as_array().map(|h| {
                 h.iter().any(|x| x["depth"].as_u64().unwrap_or(0) >= 3 && x["paths"][0].as_u64().unwrap_or(0) + x["paths"][1].as_u64().unwrap_or(0) >= 4)
@@ -125,8 +128,12 @@ fn first_difference(a: &Value, b: &Value) -> String {
 }
 
 pub fn probe_ops_case() -> BoxedStrategy<ProbeCase> {
-    (program(6, 40, true), any::<u8>())
-        .prop_map(|(prog, goal_var)| ProbeCase::Ops { prog, goal_var })
+    (program(6, 40, true), any::<u8>(), proptest::option::weighted(0.25, any::<u8>()))
+        .prop_map(|(prog, goal_var, hangup_after)| {
+            // a serde / rebuild re-materialisation detaches the sender anyway: hang-ups only on plain programs
+            let plain = !prog.ops.iter().any(|o| matches!(o, crate::bddmodel::Op::Serde | crate::bddmodel::Op::Rebuild | crate::bddmodel::Op::AdfNodeList | crate::bddmodel::Op::AdfSerde));
+            ProbeCase::Ops { prog, goal_var, hangup_after: if plain { hangup_after } else { None } }
+        })
         .boxed()
 }
 
@@ -135,7 +142,7 @@ pub fn c12_check_entry(c: &ProbeCase, st: &mut Stats) -> CheckResult {
 }
 
 fn probe_case() -> BoxedStrategy<ProbeCase> {
-    let ops = (program(5, 30, true), any::<u8>()).prop_map(|(prog, goal_var)| ProbeCase::Ops { prog, goal_var });
+    let ops = probe_ops_case();
     let adf = (
         gen::adf_case(gen::adf_small(1, 5), LabelClass::Quoted),
         sort_strategy(),
